@@ -237,6 +237,9 @@ func (c *FnCtx) h(st *State, base, sort string) string {
 			if ax := c.closureAxiom(n, base, al); ax != "" {
 				c.decls = append(c.decls, "(assert "+ax+")")
 			}
+			if strings.HasPrefix(sort, "Seq!") {
+				c.decls = append(c.decls, "(assert (>= (qlen"+sort+" "+n+") 0))")
+			}
 		}
 	}
 	return n
@@ -457,8 +460,71 @@ func (c *FnCtx) oblige(st *State, kind, label, goal string, pos token.Pos, text 
 	c.obls = append(c.obls, o)
 }
 
+// topLevelArgs splits the argument list of an s-expression application.
+func topLevelArgs(body string) []string {
+	var parts []string
+	depth := 0
+	inStr := false
+	start := -1
+	for i := 0; i < len(body); i++ {
+		ch := body[i]
+		if inStr {
+			if ch == '"' {
+				inStr = false
+			}
+			continue
+		}
+		switch ch {
+		case '"':
+			inStr = true
+			if depth == 0 && start < 0 {
+				start = i
+			}
+		case '(':
+			if depth == 0 && start < 0 {
+				start = i
+			}
+			depth++
+		case ')':
+			depth--
+			if depth == 0 {
+				parts = append(parts, body[start:i+1])
+				start = -1
+			}
+		case ' ', '\n', '\t':
+			if depth == 0 && start >= 0 {
+				parts = append(parts, body[start:i])
+				start = -1
+			}
+		default:
+			if depth == 0 && start < 0 {
+				start = i
+			}
+		}
+	}
+	if start >= 0 {
+		parts = append(parts, body[start:])
+	}
+	return parts
+}
+
 // splitAnd splits a top-level (and a b ...) goal into its conjuncts (recursively).
 func splitAnd(g string) []string {
+	if strings.HasPrefix(g, "(=> ") {
+		// (=> P (and A B)) splits into (=> P A), (=> P B)
+		args := topLevelArgs(g[4 : len(g)-1])
+		if len(args) == 2 {
+			cons := splitAnd(args[1])
+			if len(cons) > 1 {
+				var out []string
+				for _, c := range cons {
+					out = append(out, "(=> "+args[0]+" "+c+")")
+				}
+				return out
+			}
+		}
+		return []string{g}
+	}
 	if !strings.HasPrefix(g, "(and ") {
 		return []string{g}
 	}
